@@ -199,6 +199,17 @@ fn classify(root: &Node) -> (Classes, bool) {
     if max_chain >= 2 {
         acc.push("prefix-chain-2");
     }
+    // final name lengths around the 100-byte const-concatenation limit
+    let mut exp = vec![];
+    let mut sg = vec![];
+    expected(root, &crate::c07gen::NameCtx { style: None, chain: String::new() }, &mut exp, &mut sg);
+    for e in &exp {
+        match e.name.len() {
+            0..=100 => {}
+            101..=128 => acc.push("name-101-128-bytes"),
+            _ => acc.push("name-over-128-bytes"),
+        }
+    }
     let nt = styles.len() >= 2 || max_chain >= 2;
     if nt {
         acc.push("nt");
@@ -500,7 +511,7 @@ pub fn run(ctx: &mut Ctx) {
                 "flatten-exact-prefix", "name-override", "unit-attr", "ignore", "option-none", "value-struct",
                 "value-string-enum", "entry-enum", "tag-name", "tag-name-exact", "tag-sample-group", "sample-group-field",
                 "unit-variant", "tuple-variant", "struct-variant", "depth-3", "two-explicit-styles", "prefix-chain-2",
-                "long-prefix-chain",
+                "long-prefix-chain", "name-101-128-bytes", "name-over-128-bytes",
             ],
         );
         if !ctx.violations.is_empty() || !ctx.inconclusive.is_empty() {
